@@ -244,3 +244,321 @@ func specTWCCCanonical(raw []byte) bool {
 	}
 	return r.total == n+specPad4(n) && (raw[0]&0x20 != 0) == (specPad4(n) > 0)
 }
+
+// ---- RFC 3550 section 6.5: SDES (independent encoder) ----
+
+func specSDESBytes(p SourceDescription) []byte {
+	b := []byte{0x80 | byte(len(p.Chunks)&31), 202, 0, 0}
+	for _, c := range p.Chunks {
+		b = append(b, byte(c.Source>>24), byte(c.Source>>16), byte(c.Source>>8), byte(c.Source))
+		n := 4
+		for _, it := range c.Items {
+			b = append(b, byte(it.Type), byte(len(it.Text)))
+			b = append(b, it.Text...)
+			n += 2 + len(it.Text)
+		}
+		b = append(b, 0) // end of the item list
+		n++
+		for ; n%4 != 0; n++ {
+			b = append(b, 0)
+		}
+	}
+	b[2], b[3] = byte((len(b)/4-1)>>8), byte(len(b)/4-1)
+	return b
+}
+
+func specSDESWellFormed(p SourceDescription) bool {
+	if len(p.Chunks) > 31 {
+		return false
+	}
+	for _, c := range p.Chunks {
+		for _, it := range c.Items {
+			if it.Type == SDESEnd || len(it.Text) > 255 {
+				return false
+			}
+		}
+	}
+	return true
+}
+
+func specSDESEqual(p, q SourceDescription) bool {
+	if len(p.Chunks) != len(q.Chunks) {
+		return false
+	}
+	for i := range p.Chunks {
+		if p.Chunks[i].Source != q.Chunks[i].Source || !seqEq(p.Chunks[i].Items, q.Chunks[i].Items) {
+			return false
+		}
+	}
+	return true
+}
+
+func specBytesEq(a, b []byte) bool { return seqEq(a, b) }
+
+// lemmaLayoutSDES (C03, C05): Marshal emits exactly the RFC 3550 section 6.5 encoding.
+func lemmaLayoutSDES(p SourceDescription) (out []byte, err error) { return p.Marshal() }
+
+// lemmaRoundTripSDES (C02).
+func lemmaRoundTripSDES(p SourceDescription) (q SourceDescription, err, err2 error) {
+	b, err := p.Marshal()
+	if err != nil {
+		return q, err, nil
+	}
+	err2 = q.Unmarshal(b)
+	return q, nil, err2
+}
+
+// lemmaReencodeSDES (C09).
+func lemmaReencodeSDES(raw []byte) (p, q SourceDescription, err, err2, err3 error) {
+	if err = p.Unmarshal(raw); err != nil {
+		return p, q, err, nil, nil
+	}
+	out, err2 := p.Marshal()
+	if err2 != nil {
+		return p, q, nil, err2, nil
+	}
+	err3 = q.Unmarshal(out)
+	return p, q, nil, nil, err3
+}
+
+// ---- RFC 8888 section 3.1: congestion control feedback (independent encoder) ----
+
+// specCCFBBytes: the encoding of p; numReports gives the value written into a block's num_reports field for a
+// block with n metric blocks (RFC 8888: n; the library writes n-1, a recorded known finding).
+func specCCFBBytes(p CCFeedbackReport, numReports func(n int) int) []byte {
+	b := []byte{0x80 | 11, 205, 0, 0, byte(p.SenderSSRC >> 24), byte(p.SenderSSRC >> 16), byte(p.SenderSSRC >> 8), byte(p.SenderSSRC)}
+	for _, blk := range p.ReportBlocks {
+		nr := numReports(len(blk.MetricBlocks))
+		b = append(b, byte(blk.MediaSSRC>>24), byte(blk.MediaSSRC>>16), byte(blk.MediaSSRC>>8), byte(blk.MediaSSRC),
+			byte(blk.BeginSequence>>8), byte(blk.BeginSequence), byte(nr>>8), byte(nr))
+		for _, m := range blk.MetricBlocks {
+			w := uint16(0)
+			if m.Received {
+				w = 1<<15 | uint16(m.ECN&3)<<13 | m.ArrivalTimeOffset&0x1FFF
+			}
+			b = append(b, byte(w>>8), byte(w))
+		}
+		if len(blk.MetricBlocks)%2 != 0 {
+			b = append(b, 0, 0)
+		}
+	}
+	b = append(b, byte(p.ReportTimestamp>>24), byte(p.ReportTimestamp>>16), byte(p.ReportTimestamp>>8), byte(p.ReportTimestamp))
+	b[2], b[3] = byte((len(b)/4-1)>>8), byte(len(b)/4-1)
+	return b
+}
+
+func specCCFBLibraryNumReports(n int) int {
+	if n > 0 {
+		return n - 1
+	}
+	return 0
+}
+
+func specCCFBRFCNumReports(n int) int { return n }
+
+// specCCFBCanonical: values the wire can carry and the decoder returns unchanged: a metric block that is not
+// received has ECN 0 and offset 0, offsets below 2^13, ECN below 4, sequence ranges inside 16 bits.
+func specCCFBCanonical(p CCFeedbackReport) bool {
+	for _, blk := range p.ReportBlocks {
+		if len(blk.MetricBlocks) > 16384 || int(blk.BeginSequence)+len(blk.MetricBlocks) > 65536 {
+			return false
+		}
+		for _, m := range blk.MetricBlocks {
+			if m.ECN > 3 || m.ArrivalTimeOffset >= 1<<13 || (!m.Received && (m.ECN != 0 || m.ArrivalTimeOffset != 0)) {
+				return false
+			}
+		}
+	}
+	return true
+}
+
+// specCCFBSingletons: some block has exactly one metric block (written as num_reports 0 and therefore read back
+// as an empty block: the num_reports known finding).
+func specCCFBSingletons(p CCFeedbackReport) bool {
+	for _, blk := range p.ReportBlocks {
+		if len(blk.MetricBlocks) == 1 {
+			return true
+		}
+	}
+	return false
+}
+
+func specCCFBHasMetrics(p CCFeedbackReport) bool {
+	for _, blk := range p.ReportBlocks {
+		if len(blk.MetricBlocks) > 0 {
+			return true
+		}
+	}
+	return false
+}
+
+func specCCFBEqual(p, q CCFeedbackReport) bool {
+	if p.SenderSSRC != q.SenderSSRC || p.ReportTimestamp != q.ReportTimestamp || len(p.ReportBlocks) != len(q.ReportBlocks) {
+		return false
+	}
+	for i := range p.ReportBlocks {
+		a, b := p.ReportBlocks[i], q.ReportBlocks[i]
+		if a.MediaSSRC != b.MediaSSRC || a.BeginSequence != b.BeginSequence || !seqEq(a.MetricBlocks, b.MetricBlocks) {
+			return false
+		}
+	}
+	return true
+}
+
+// lemmaLayoutCCFB (C03, C05).
+func lemmaLayoutCCFB(p CCFeedbackReport) (out []byte, err error) { return p.Marshal() }
+
+// lemmaRoundTripCCFB (C02).
+func lemmaRoundTripCCFB(p CCFeedbackReport) (q CCFeedbackReport, err, err2 error) {
+	b, err := p.Marshal()
+	if err != nil {
+		return q, err, nil
+	}
+	err2 = q.Unmarshal(b)
+	return q, nil, err2
+}
+
+// lemmaReencodeCCFB (C09).
+func lemmaReencodeCCFB(raw []byte) (p, q CCFeedbackReport, err, err2, err3 error) {
+	if err = p.Unmarshal(raw); err != nil {
+		return p, q, err, nil, nil
+	}
+	out, err2 := p.Marshal()
+	if err2 != nil {
+		return p, q, nil, err2, nil
+	}
+	err3 = q.Unmarshal(out)
+	return p, q, nil, nil, err3
+}
+
+// ---- datagram level (C02, C06, C07, C09): lists of packets ----
+
+// specSameWire: both lists have the same length, element k has the same concrete Go type in both, and the two
+// elements marshal to the same octets.
+func specSameWire(ps, qs []Packet) bool {
+	if len(ps) != len(qs) {
+		return false
+	}
+	for k := range ps {
+		if ps[k] == nil || qs[k] == nil || specTypeName(ps[k]) != specTypeName(qs[k]) {
+			return false
+		}
+		a, e1 := ps[k].Marshal()
+		b, e2 := qs[k].Marshal()
+		if e1 != nil || e2 != nil || !seqEq(a, b) {
+			return false
+		}
+	}
+	return true
+}
+
+func specTypeName(p Packet) string {
+	switch p.(type) {
+	case *SenderReport:
+		return "SR"
+	case *ReceiverReport:
+		return "RR"
+	case *SourceDescription:
+		return "SDES"
+	case *Goodbye:
+		return "BYE"
+	case *ApplicationDefined:
+		return "APP"
+	case *TransportLayerNack:
+		return "NACK"
+	case *RapidResynchronizationRequest:
+		return "RRR"
+	case *TransportLayerCC:
+		return "TWCC"
+	case *CCFeedbackReport:
+		return "CCFB"
+	case *PictureLossIndication:
+		return "PLI"
+	case *SliceLossIndication:
+		return "SLI"
+	case *ReceiverEstimatedMaximumBitrate:
+		return "REMB"
+	case *FullIntraRequest:
+		return "FIR"
+	case *ExtendedReport:
+		return "XR"
+	case *RawPacket:
+		return "RAW"
+	case *CompoundPacket:
+		return "COMPOUND"
+	}
+	return "?"
+}
+
+// specSumSizes: sum of the members' MarshalSize.
+func specSumSizes(ps []Packet) int {
+	n := 0
+	for _, p := range ps {
+		n += p.MarshalSize()
+	}
+	return n
+}
+
+// lemmaRoundTripList (C02, C06, C07): Unmarshal(Marshal(list)) is the same list, type by type.
+func lemmaRoundTripList(ps []Packet) (qs []Packet, out []byte, err, err2 error) {
+	out, err = Marshal(ps)
+	if err != nil {
+		return nil, nil, err, nil
+	}
+	qs, err2 = Unmarshal(out)
+	return qs, out, nil, err2
+}
+
+// lemmaReencodeList (C09): for an accepted datagram, Marshal(Unmarshal(raw)) is accepted again and is the same list.
+func lemmaReencodeList(raw []byte) (ps, qs []Packet, err, err2, err3 error) {
+	ps, err = Unmarshal(raw)
+	if err != nil {
+		return nil, nil, err, nil, nil
+	}
+	out, err2 := Marshal(ps)
+	if err2 != nil {
+		return ps, nil, nil, err2, nil
+	}
+	qs, err3 = Unmarshal(out)
+	return ps, qs, nil, nil, err3
+}
+
+// specCCFBMask: b with the num_reports field of every report block of p zeroed (positions follow p's layout).
+func specCCFBMask(b []byte, p CCFeedbackReport) []byte {
+	out := append([]byte(nil), b...)
+	off := 8
+	for _, blk := range p.ReportBlocks {
+		if off+8 <= len(out) {
+			out[off+6], out[off+7] = 0, 0
+		}
+		off += 8 + 2*len(blk.MetricBlocks)
+		if len(blk.MetricBlocks)%2 != 0 {
+			off += 2
+		}
+	}
+	return out
+}
+
+// specListScope: the scope C09 gives TransportLayerCC (decoded header consistent with the content).
+func specListScope(ps []Packet) bool {
+	for _, p := range ps {
+		if t, ok := p.(*TransportLayerCC); ok {
+			n := int(t.packetLen())
+			if int(t.Header.Length) != t.MarshalSize()/4-1 || t.Header.Padding != (n%4 != 0) || t.Header.Count != FormatTCC || t.Header.Type != TypeTransportSpecificFeedback {
+				return false
+			}
+		}
+	}
+	return true
+}
+
+// specListUnalignedXR: some member is an extended report with a block that is not a whole number of words
+// (the recorded XR padding finding).
+func specListUnalignedXR(ps []Packet) bool {
+	for _, p := range ps {
+		if x, ok := p.(*ExtendedReport); ok && !specXRAllAligned(x.Reports, len(x.Reports)) {
+			return true
+		}
+	}
+	return false
+}
